@@ -4,15 +4,18 @@
 use std::sync::atomic::{AtomicUsize, Ordering};
 
 /// Capacity of the fixed-size cache map used instead of `HashMap` under verification.
-pub const LINEAR_CACHE_CAPACITY: usize = 8;
+pub const LINEAR_CACHE_CAPACITY: usize = 5;
 
 /// Fixed-capacity, heap-free stand-in for the `HashMap` behind `CacheEntries`.
 ///
 /// Same `get` / `insert` contract as the map it replaces (finite map from offsets to values);
 /// exceeding the capacity is an assertion failure, never a silent drop.
+///
+/// The values are deliberately never dropped (`ManuallyDrop`): the drop glue of the array is a loop the
+/// model checker would have to unwind for nothing, and leaking is harmless in a verification build.
 pub struct LinearCache<V> {
     keys: [usize; LINEAR_CACHE_CAPACITY],
-    vals: [Option<V>; LINEAR_CACHE_CAPACITY],
+    vals: std::mem::ManuallyDrop<[Option<V>; LINEAR_CACHE_CAPACITY]>,
     len: usize,
 }
 
@@ -20,7 +23,7 @@ impl<V> Default for LinearCache<V> {
     fn default() -> Self {
         Self {
             keys: [0; LINEAR_CACHE_CAPACITY],
-            vals: [None, None, None, None, None, None, None, None],
+            vals: std::mem::ManuallyDrop::new([None, None, None, None, None]),
             len: 0,
         }
     }
